@@ -440,6 +440,50 @@ func init() {
 	register(&Rule{ID: "T-FUNC", Props: []string{"C02", "C08", "C04", "C01", "C10", "C12", "C13", "C16", "C17", "C18", "C19", "C20"}, Floor: 12,
 		Doc: "Function calls, by path enumeration of the function-call parser with the name pinned to each built-in of the specification in turn (arity helpers inlined whatever their form; only the expression entry is opaque): the accepted argument lists are exactly `arg {, arg} )` with the specified minimum and maximum count and `&` exactly at the specified position; the node built is the specified one for that count and carries the parsed arguments in order; arguments are parsed below every operator's binding power; too few or too many arguments yield InvalidFunctionCallError, a missing `&` InvalidFunctionArgumentError, an unknown name UnknownFunctionError.",
 		Run: ruleTFunc})
+	register(&Rule{ID: "T-FUNC-NOPANIC", Props: []string{"C03"}, Floor: 12,
+		Doc: "the same path enumeration as T-FUNC, read for one thing only: no path of the function-call parser, for any built-in and any argument list, reaches a panic statement or a conversion of an argument slice to a fixed-size array that is longer than the slice",
+		Run: ruleTFuncNoPanic})
+}
+
+func ruleTFuncNoPanic(p *Program, r *Reporter) {
+	scratch := &Reporter{p: p, rule: r.rule}
+	ruleTFunc(p, scratch)
+	type verdict struct {
+		pos token.Pos
+		bad string
+	}
+	per := map[string]*verdict{}
+	var order []string
+	for _, ob := range scratch.obs {
+		if ob.Status == Undecided && !strings.HasPrefix(ob.Key, "builtin ") {
+			r.Unknown(ob.pos, ob.Key, ob.Detail)
+			continue
+		}
+		if !strings.HasPrefix(ob.Key, "builtin ") {
+			continue
+		}
+		name := strings.Fields(strings.TrimPrefix(ob.Key, "builtin "))[0]
+		v := per[name]
+		if v == nil {
+			v = &verdict{pos: ob.pos}
+			per[name] = v
+			order = append(order, name)
+		}
+		if ob.Status == Violated && (strings.Contains(ob.Key, " panics") || ob.Detail == "a path panics") && v.bad == "" {
+			v.bad = ob.Detail
+			if ob.pos.IsValid() {
+				v.pos = ob.pos
+			}
+		}
+	}
+	for _, name := range order {
+		v := per[name]
+		if v.bad != "" {
+			r.Bad(v.pos, "builtin "+name, v.bad)
+		} else {
+			r.OK(v.pos, "builtin "+name, "no enumerated path of the call parser panics")
+		}
+	}
 }
 
 // argList returns the argument values a function node carries, in order.
@@ -573,6 +617,18 @@ func ruleTFunc(p *Program, r *Reporter) {
 			if o.Panic {
 				fail(fn.Pos(), key, "a path panics")
 				continue
+			}
+			for _, ev := range o.St.Trace {
+				if ev.Kind == "runtime-panic" {
+					pos := ev.Pos
+					if !pos.IsValid() && o.Ret != nil {
+						pos = o.Ret.Pos()
+					}
+					if !pos.IsValid() {
+						pos = fn.Pos()
+					}
+					fail(pos, key+" panics", "a path of the call parser panics: "+ev.Note)
+				}
 			}
 			items, curr, next := d.consumed(o.St)
 			if len(items) < 2 {
@@ -709,6 +765,10 @@ func ruleTFunc(p *Program, r *Reporter) {
 			}
 			if want != "" && et != want {
 				fail(pos, kk, fmt.Sprintf("rejected with %s, want %s", et, want))
+			} else if et == "InvalidFunctionCallError" && curr.Type == "" {
+				// an arity fault is a `)` that comes too early or a `,` after the last argument; any other token there is
+				// outside the grammar and is a syntax error
+				fail(pos, kk, "rejected with InvalidFunctionCallError for a token that is not pinned to `)` or `,`: a token outside the grammar is reported as an arity fault")
 			}
 		}
 		if !known {
